@@ -103,7 +103,8 @@ def coq_build(targets, timeout=3000):
     """Full .vo build of the given targets (never -vos). Returns (ok, log)."""
     with Lock("coq"):
         coq_makefile()
-        rc, out = run(["make", "-j16"] + targets, cwd=COQ, timeout=timeout)
+    # make itself runs unlocked: per-property targets are disjoint apart from the stable shared files
+    rc, out = run(["make", "-j8"] + targets, cwd=COQ, timeout=timeout)
     return rc == 0, out
 
 
@@ -190,14 +191,14 @@ def harness_build(prop):
         paths = ",".join('"%s"' % os.path.join(REPO, c) for c in REPO_CRATES if os.path.isdir(os.path.join(REPO, c)))
         cmd += ["--config", "paths=[%s]" % paths, "--config", 'env.FBH_REPO="%s"' % REPO]
         env["CARGO_TARGET_DIR"] = harness_target_dir()
-    with Lock("cargo"):
-        rc, out = run(cmd, cwd=HARNESS, timeout=3000, env=env)
+    rc, out = run(cmd, cwd=HARNESS, timeout=3000, env=env)  # cargo serialises builds itself
     return rc == 0, out
 
 
 def run_shard(path):
     t0 = time.time()
-    rc, out = run(["coqc", "-noglob", "-Q", COQ, "FB", path], cwd=os.path.dirname(path), timeout=1800)
+    # large literal lists need a deep stack in coqc's parser
+    rc, out = run(["sh", "-c", 'ulimit -s unlimited 2>/dev/null; exec coqc -noglob -Q "$0" FB "$1"', COQ, path], cwd=os.path.dirname(path), timeout=3000)
     for ext in (".vo", ".vok", ".vos", ".glob"):
         try:
             os.remove(path[:-2] + ext)
@@ -252,6 +253,16 @@ def main(prop, spec):
     args = ap.parse_args(sys.argv[2:])
     tier = "thorough" if args.tier == "thorough" else "quick"
     seed = int(os.environ.get("VERIF_SEED", "1"))
+    if args.replay:
+        # a replay file ends with the line `reproduce: VERIF_SEED=<n> ./check Cxx --tier <t>`; every
+        # random choice derives from the seed, so re-running with it revisits the recorded input
+        try:
+            m = re.search(r"reproduce: VERIF_SEED=(\d+) \./check \S+ --tier (\w+)", open(args.replay).read())
+            if m:
+                seed, tier = int(m.group(1)), m.group(2)
+                log("replaying %s with seed=%d tier=%s" % (args.replay, seed, tier))
+        except OSError as ex:
+            log("cannot read replay file: %s" % ex)
     workdir = os.path.join(WORK, prop)
     os.makedirs(workdir, exist_ok=True)
     if ALT:
@@ -299,6 +310,20 @@ def main(prop, spec):
                 broken.append(("theorem:" + n, "depends on axioms outside the allow-list: %s" % bad))
             else:
                 discharged += 1
+
+    coqchk_note = "not run (thorough tier only)"
+    if ok and tier == "thorough":
+        rc, cout = run(["coqchk", "-silent", "-o", "-Q", COQ, "FB", "FB.Props.%s" % prop], cwd=COQ, timeout=1800)
+        tail = cout.strip().split("\n")[-12:]
+        coqchk_note = "exit %d: %s" % (rc, " | ".join(l.strip() for l in tail if l.strip()))
+        if rc != 0:
+            broken.append(("coqchk", "coqchk rejected Props/%s.vo:\n%s" % (prop, cout[-1500:])))
+        elif "Axioms: <none>" not in cout and re.search(r"Axioms:\s*\S", cout):
+            m2 = re.search(r"Axioms:(.*?)(?:\n\s*\n|\Z)", cout, re.S)
+            axl = [a.strip() for a in (m2.group(1) if m2 else "").split("\n") if a.strip() and a.strip() != "<none>"]
+            bad = [a for a in axl if a.split()[0].split(".")[-1] not in {x.split(".")[-1] for x in ALLOWED_AXIOMS}]
+            if bad:
+                broken.append(("coqchk", "coqchk reports axioms outside the allow-list: %s" % bad))
 
     # 3/4 harness
     report = None
@@ -411,6 +436,7 @@ def main(prop, spec):
             "known_findings_reproduced": known_lines,
             "broken_obligations": [b[0] for b in broken],
             "harness_notes": (report or {}).get("notes", []),
+            "coqchk": coqchk_note,
             "shard_seconds_max": round(max(shard_times), 2) if shard_times else 0,
         },
         "assumptions": spec.get("assumptions", []),
